@@ -49,7 +49,10 @@ func runExtOps(d hdrDesc, ops []Tok) Outcome {
 	h := rtp.Header{Version: uint8(d.version), Padding: d.padding, Marker: d.mk, PayloadType: uint8(d.pt),
 		SequenceNumber: d.seq, Timestamp: d.ts, SSRC: d.ssrc, Extension: d.ext, ExtensionProfile: d.profile}
 	h.CSRC = append([]uint32{}, d.csrc...)
-	var m []kvp // the ordered map the accessors are supposed to implement
+	var m []kvp // the ordered map the accessors are supposed to implement (holds its own copies)
+	// equal values are passed as the SAME slice object, as a caller that sets one buffer under several
+	// ids would; the library may keep the slice but must never write through it
+	interned := map[string][]byte{}
 	enabled, profile := d.ext, d.profile
 	outs := VList{}
 	fail := func(format string, a ...interface{}) {
@@ -71,6 +74,11 @@ func runExtOps(d hdrDesc, ops []Tok) Outcome {
 			switch tokInt(l[0]) {
 			case 1:
 				id, v := uint8(tokInt(l[1])), tokBytes(l[2])
+				if prev, ok := interned[string(v)]; ok {
+					v = prev
+				} else {
+					interned[string(v)] = v
+				}
 				before := h.Clone()
 				err := h.SetExtension(id, v)
 				outs = append(outs, optErrV(err))
@@ -94,9 +102,15 @@ func runExtOps(d hdrDesc, ops []Tok) Outcome {
 				}
 				if err == nil {
 					if i := find(id); i >= 0 {
-						m[i].v = v
+						m[i].v = append([]byte{}, v...)
 					} else {
-						m = append(m, kvp{id, v})
+						m = append(m, kvp{id, append([]byte{}, v...)})
+					}
+					// last value per id, for EVERY id: a Set must not disturb the value of another id
+					for _, e := range m {
+						if got := h.GetExtension(e.id); !bytes.Equal(got, e.v) {
+							fail("step %d: after SetExtension(%d, %d bytes) GetExtension(%d) returns %x, the last value set was %x", step, id, len(v), e.id, got, e.v)
+						}
 					}
 				} else if !hdrEquivalent(&before, &h) || before.Extension != h.Extension {
 					fail("step %d: a failed SetExtension changed the header", step)
@@ -152,6 +166,11 @@ func runExtOps(d hdrDesc, ops []Tok) Outcome {
 	if pn {
 		o.Impl, o.Fail = PanicV(), "accessor panicked: "+what
 		return o
+	}
+	for k, sl := range interned {
+		if string(sl) != k {
+			fail("the library wrote into a slice the caller passed to SetExtension: %x became %x", k, sl)
+		}
 	}
 	o.Nontrivial = len(m) > 0
 	final := vHeader(&h)
@@ -223,9 +242,13 @@ func init() {
 			for i := 0; i < n; i++ {
 				c := r.Fork(uint64(i))
 				d := starts[c.Intn(4)]
+				if d.profile == 0x1234 {
+					d.profile = legacyProfile(c)
+				}
 				d.seq, d.ts, d.pt, d.mk = uint16(c.U64()), uint32(c.U64()), c.Intn(128), c.Bool()
 				k := 1 + c.Intn(12)
 				ops := TList{}
+				var used [][]byte
 				for j := 0; j < k; j++ {
 					id := idsPool[c.Intn(len(idsPool))]
 					if c.Intn(4) == 0 {
@@ -237,7 +260,17 @@ func init() {
 						if c.Intn(3) == 0 {
 							l = c.Intn(20)
 						}
-						ops = append(ops, TList{TI(1), TI(int64(id)), TBytes(c.Bytes(l))})
+						v := c.Bytes(l)
+						if len(used) > 0 {
+							switch c.Intn(4) {
+							case 0: // the same buffer under another id, or set again
+								v = used[c.Intn(len(used))]
+							case 1: // a replacement of the same length
+								v = c.Bytes(len(used[c.Intn(len(used))]))
+							}
+						}
+						used = append(used, v)
+						ops = append(ops, TList{TI(1), TI(int64(id)), TBytes(v)})
 					case x < 75:
 						ops = append(ops, TList{TI(2), TI(int64(id))})
 					case x < 90:
